@@ -2,3 +2,7 @@ import YadismModel.Model.Proto
 import YadismModel.Model.Couplings
 import YadismModel.Model.Weights
 import YadismModel.Model.Combiner
+import YadismModel.Model.Compat
+import YadismModel.Model.Operator
+import YadismModel.Model.Orders
+import YadismModel.Model.XS
